@@ -219,7 +219,7 @@ func newDKGInst(w *c14World, phase string) *dkgInst {
 	if phase == "complete" {
 		in.completeDKG(mkProc, cmd)
 		bps := map[string]*core.BeaconProcess{c14BeaconID: core.VerifNewBeaconProcess(c14BeaconID, w.M, nil, nil, nil, nil, quietLogger(), nil, nil)}
-		in.dd = core.VerifNewDaemon(quietLogger(), in.M, bps)
+		in.dd = core.VerifNewDaemonC14(quietLogger(), in.M, bps)
 		return in
 	}
 	// the leader proposes (real Command path: signs and "gossips" into cliL)
@@ -264,7 +264,7 @@ func newDKGInst(w *c14World, phase string) *dkgInst {
 	}
 	// daemon proxy layer and the real peer-facing listener in front of it
 	bps := map[string]*core.BeaconProcess{c14BeaconID: core.VerifNewBeaconProcess(c14BeaconID, w.M, nil, nil, nil, nil, quietLogger(), nil, nil)}
-	in.dd = core.VerifNewDaemon(quietLogger(), in.M, bps)
+	in.dd = core.VerifNewDaemonC14(quietLogger(), in.M, bps)
 	return in
 }
 
